@@ -27,6 +27,10 @@ pub struct NativeFn {
     /// the read_memory calls read exactly the signature pairs, each once (no pointer read with another
     /// parameter's length)
     pub pairs_matched: bool,
+    /// the function returns an i64 to WASM (`Result<u64, _>`)
+    pub returns_u64: bool,
+    /// ... and that i64 is `buffer.0` of the Buffer returned by exactly one runtime call
+    pub result_is_buffer: bool,
     /// uses of pointer parameters outside the argument lists of the helpers
     pub stray_ptr_uses: usize,
     /// direct use of the memory object (`memory.<method>(`, `Memory::`, `get_export(`)
@@ -57,6 +61,10 @@ pub struct Scan {
     pub imports: Vec<Import>,
     /// names of all `fn`s of the file whose body touches the memory object directly
     pub raw_fns: Vec<String>,
+    /// scrypto_runtime.rs: methods returning `Result<Buffer, _>` with the number of `self.allocate_buffer(` calls in the body
+    pub runtime_buffer_fns: Vec<(String, usize)>,
+    /// scrypto_runtime.rs: functions whose body constructs a Buffer (`Buffer::new(` / `Buffer(`)
+    pub runtime_buffer_ctor_sites: Vec<String>,
 }
 
 fn is_ident(c: char) -> bool {
@@ -169,8 +177,30 @@ fn calls_of(body: &str, name: &str) -> Vec<Vec<String>> {
     out
 }
 
+/// number of method calls on `recv` (`recv.name(` possibly with whitespace/newline before the dot)
+fn calls_of_method(body: &str, recv: &str) -> usize {
+    let b = body.as_bytes();
+    let mut n = 0;
+    let mut from = 0;
+    while let Some(p) = body[from..].find(recv) {
+        let s = from + p;
+        let e = s + recv.len();
+        let before_ok = s == 0 || !is_ident(b[s - 1] as char);
+        let mut j = e;
+        while j < b.len() && (b[j] as char).is_whitespace() {
+            j += 1;
+        }
+        if before_ok && j < b.len() && b[j] == b'.' && (e >= b.len() || !is_ident(b[e] as char)) {
+            n += 1;
+        }
+        from = e;
+    }
+    n
+}
+
 struct FnText {
     name: String,
+    ret: String,
     attrs: String,
     params: String,
     body: String,
@@ -250,7 +280,8 @@ fn all_fns(src: &str) -> Vec<FnText> {
                 break;
             }
         }
-        out.push(FnText { name, attrs, params, body: src[k..=bclose].to_string(), start: s });
+        let ret = src[pclose + 1..k].trim().trim_start_matches("->").trim().to_string();
+        out.push(FnText { name, ret, attrs, params, body: src[k..=bclose].to_string(), start: s });
         from = j; // nested fns are found too
     }
     out
@@ -260,7 +291,17 @@ pub fn scan() -> Scan {
     let root = repo_root();
     let src = std::fs::read_to_string(format!("{}/radix-engine/src/vm/wasm/wasmi.rs", root)).expect("read wasmi.rs");
     let consts_src = std::fs::read_to_string(format!("{}/radix-engine/src/vm/wasm/constants.rs", root)).expect("read constants.rs");
-    scan_text(&src, &consts_src)
+    let mut sc = scan_text(&src, &consts_src);
+    let rt_src = std::fs::read_to_string(format!("{}/radix-engine/src/vm/wasm_runtime/scrypto_runtime.rs", root)).expect("read scrypto_runtime.rs");
+    for f in all_fns(&rt_src) {
+        if f.body.contains("Buffer::new(") || f.body.contains("Buffer(") {
+            sc.runtime_buffer_ctor_sites.push(f.name.clone());
+        }
+        if f.ret.starts_with("Result<Buffer") && f.name != "allocate_buffer" {
+            sc.runtime_buffer_fns.push((f.name.clone(), f.body.matches("self.allocate_buffer(").count()));
+        }
+    }
+    sc
 }
 
 pub fn scan_text(src: &str, consts_src: &str) -> Scan {
@@ -344,7 +385,11 @@ pub fn scan_text(src: &str, consts_src: &str) -> Scan {
             b.sort();
             a == b
         };
+        let returns_u64 = f.ret.starts_with("Result<u64");
+        let result_is_buffer = returns_u64 && f.body.matches(".map(|buffer| buffer.0)").count() == 1 && calls_of_method(&f.body, "runtime") == 1;
         natives.push(NativeFn {
+            returns_u64,
+            result_is_buffer,
             sig_pairs,
             pairs_matched,
             name: f.name.clone(),
@@ -437,7 +482,7 @@ pub fn scan_text(src: &str, consts_src: &str) -> Scan {
         from = close;
     }
 
-    Scan { natives, closures, imports, raw_fns }
+    Scan { natives, closures, imports, raw_fns, runtime_buffer_fns: Vec::new(), runtime_buffer_ctor_sites: Vec::new() }
 }
 
 impl Scan {
